@@ -118,7 +118,7 @@ PhMarks(e) ==
 VasN(ts) == [i \in DOMAIN ts |->
                IF ts[i].t = "VALUE" /\ i > 1 /\ (ts[i-1].t = "." \/ (i > 2 /\ ts[i-1].t = "(" /\ IsFn(ts, i - 2, "if_not_exists")))
                THEN [ts[i] EXCEPT !.t = "NAME"] ELSE ts[i]]
-TextSig0(e) == LET ts == Lex(e.text)
+TextSig0(e) == LET ts == IF e.op = "MatchText" THEN Lex(e.text) ELSE StripVP(Lex(e.text))
                    vn == VasN(ts) IN
               IF e.op = "MatchText"
               THEN (IF ParseCond(ts).ok THEN CondSig(ParseCond(ts).ast, e.item, e.names, e.values)
@@ -174,8 +174,9 @@ RewriteSV(ts) ==
 TextFails(e) ==
   LET ts0 == Lex(e.text)
       cond == e.op = "MatchText"
-      ts == IF cond THEN RewriteSV(ts0) ELSE ts0
-      sizeOfValue == ts # ts0
+      ts == IF cond THEN RewriteSV(ts0) ELSE StripVP(ts0)
+      sizeOfValue == cond /\ ts # ts0
+      valueParens == ~cond /\ ts # ts0
       strict == e.strict \/ HasAlien(e.text)
       pr == IF cond THEN ParseCond(ts) ELSE ParseUpdate(ts)
       usedN == IF ~pr.ok THEN {} ELSE IF cond THEN CondNames(pr.ast) ELSE UpdNames(pr.ast)
@@ -196,6 +197,7 @@ TextFails(e) ==
              ELSE IF reservedUse THEN (IF strict /\ ~isErr THEN { ch \o ".Reserved" } ELSE {})
              ELSE IF oddCase /\ isErr THEN {}
              ELSE IF sizeOfValue THEN {}
+             ELSE IF valueParens /\ isErr THEN {}
              ELSE IF ~cond /\ pr.rep /\ isErr THEN {}     \* repeated clause keyword: rejected, or applied as if merged (D.3)
              ELSE IF cond
              THEN LET allowed == allowedC IN
